@@ -130,6 +130,25 @@ def replay(chk, e, n, key="lattice"):
         if not terms.close(full[0, i, i].item(), diag[i], rel=rel):
             chk.violation(key + ":rho[full]-diagonal", dict(det, i=i))
             break
+    # batches are lists of samples: more rows than basis states, repeats, any order; rectangular rho(v, vp)
+    r = random.Random(n)
+    li = [r.randrange(N) for _ in range(N + 1 + n % (N + 3))]
+    lj = [r.randrange(N) for _ in range(1 + n % (2 * N + 1))]
+    lprob = st.probability(sp[li])
+    lrho = st.rho(sp[li], sp[lj])
+    for t in (0, len(li) - 1, r.randrange(len(li))):
+        chk.evaluations += 2
+        if not terms.close(lprob[t].item(), diag[li[t]], rel=rel):
+            chk.violation(key + ":probability[long-batch]", dict(det, row=t, rows=len(li), state=li[t], got=lprob[t].item(),
+                                                                   expected=mpmath.nstr(diag[li[t]], 17)))
+            break
+        u = r.randrange(len(lj))
+        i, j = li[t], lj[u]
+        if tuple(lrho.shape) != (2, len(li), len(lj)) or not cclose(
+                lrho[0, t, u].item(), lrho[1, t, u].item(), rho[i][j], mpmath.sqrt(diag[i] * diag[j]),
+                1e-7 if cancels(e["G"][i][j]) else rel):
+            chk.violation(key + ":rho[rectangular]", dict(det, i=i, j=j, shape=list(lrho.shape)))
+            break
     chk.evaluations += 2
     if not terms.close(st.normalization(sp).item(), Z, rel=rel):
         chk.violation(key + ":normalization", dict(det, got=st.normalization(sp).item(), expected=mpmath.nstr(Z, 17)))
